@@ -124,7 +124,13 @@ type vfProp struct {
 	simplify func(sc *vfScenario) []*vfScenario
 	// valid (optional) rejects shrink candidates the oracle is not defined for.
 	valid func(sc *vfScenario) bool
+	// noDouble: the check compares two executions byte for byte (or relies on the scheduler owning every order), so
+	// its race-enabled phase never releases two goroutines in one step.
+	noDouble bool
 }
+
+// vfDoubleRelease is set by the runner for the race-enabled phase (VF_DOUBLE=1).
+var vfDoubleRelease = os.Getenv("VF_DOUBLE") == "1"
 
 var vfProps = map[string]*vfProp{}
 
@@ -166,6 +172,7 @@ func vfExecute(t *testing.T, sc *vfScenario, trace bool) (res *vfResult) {
 			sim = vfNewSim(tape, p.maxSteps)
 			sim.traceOn = trace
 			sim.pct = sc.cfg("pct", 0) != 0
+			sim.double = sc.cfg("double", 0) != 0
 			vfOptMix = uint64(sc.cfg("optmix", 0))
 			t0 := time.Now()
 			run := &vfRun{sc: sc, sim: sim, t: t, res: res}
@@ -687,6 +694,9 @@ func vfWorkerRun(t *testing.T, journal string) {
 			sc.Prop, sc.Class, sc.Seed = prop, class, seed
 			if sc.Cfg != nil && vfMix(seed, 0x9c7)%3 == 0 {
 				sc.Cfg["pct"] = 1 // a third of the runs use priority scheduling
+			}
+			if sc.Cfg != nil && vfDoubleRelease && !p.noDouble && vfMix(seed, 0x0d0)%2 == 0 {
+				sc.Cfg["double"] = 1 // (race-enabled phase only) some steps release two parked goroutines at once
 			}
 			if sc.Cfg != nil && vfMix(seed, 0x0b7)%2 == 0 {
 				// half of the runs hand the server its options in another order, some with an
